@@ -5,7 +5,7 @@ open Cppcheck.Wire Cppcheck.PPCond Cppcheck.PPMacro
 /-
 Line protocol (one op per line):
   ev <defs> <hexexpr>               -> "V <n>" | "E div0|divov|invalid|fnmacro|other"     (simplecpp `#if` evaluator on the text)
-  pp <q> <defs> <undefs> <hexsrc>   (q = three 0/1 flags: Quirks.vaComma, stringSpace, elifEval; 111 = the code)
+  pp <q> <defs> <undefs> <hexsrc>   (q = four 0/1 flags: Quirks.vaComma, stringSpace, elifEval, pasteBlue; 1111 = the code)
                                     -> "T <hex of output tokens joined by one space>" | "E <class>" | "X <why>" (outside the fragment)
   cd <hex userDefines> <undefs> <hex cfg> <hexsrc>   -> same, through the model of createDUI
   spec <defs> <ast>                 -> "<hex printed text> <S v u | U> <class> <V n | E cls>"   specification value, agreement class
@@ -20,7 +20,7 @@ def parseList (s : String) : Option (List (List Char)) :=
   if s == "-" then some [] else (s.splitOn ",").mapM fromHex
 
 def errStr : Cppcheck.PPCond.Err → String
-  | .div0 => "div0" | .divov => "divov" | .invalid => "invalid" | .fnmacro => "fnmacro"
+  | .div0 => "div0" | .divov => "divov" | .invalid => "invalid" | .fnmacro => "fnmacro" | .other => "other"
 
 def joinToks (l : List Tok) : List Char := (" ".intercalate (l.map String.ofList)).toList
 
@@ -88,18 +88,31 @@ partial def parseE (s : List Char) : Option (E × List Char) :=
     | none => none
   | _ => none
 
+/-- the condition through the whole pipeline: dui.defines -> macro table, `defined`, macro replacement, evaluate -/
 def evalText (defs : List (List Char)) (text : List Char) : String :=
+  match initMacros defs [] with
+  | .error _ => "E other"
+  | .ok ms =>
+    match condTokens ms ((lexLine text).map (·.s)) with
+    | .error _ => "E other"
+    | .ok l =>
+      match expand Quirks.code ms [] (l.map fun s => ⟨s, false⟩) with
+      | .error _ => "E other"
+      | .ok x =>
+        match evaluate (x.map (·.s)) with
+        | .ok v => s!"V {v}"
+        | .error e => "E " ++ errStr e
+
+/-- the function the theorems of Props/C11.lean are about -/
+def evalIfText (defs : List (List Char)) (l : List Tok) : String :=
   let isDef (x : Tok) : Bool := defs.any fun d => defName d == x
-  match replaceDefined isDef ((lexLine text).map (·.s)) with
-  | none => "E other"
-  | some l =>
-    match evaluate l with
-    | .ok v => s!"V {v}"
-    | .error e => "E " ++ errStr e
+  match evalIf isDef l with
+  | .ok v => s!"V {v}"
+  | .error e => "E " ++ errStr e
 
 def quirks (s : String) : Quirks :=
   match s.toList with
-  | [a, b, c] => ⟨a == '1', b == '1', c == '1'⟩
+  | [a, b, c, d] => ⟨a == '1', b == '1', c == '1', d == '1'⟩
   | _ => Quirks.code
 
 def step (line : String) : String :=
@@ -125,7 +138,10 @@ def step (line : String) : String :=
         | some v => s!"S {v.v} {boolStr v.u}"
         | none => "U"
       let cls := (firstFailing isDef e).getD "agree"
-      s!"{toHex text} {sv} {cls} {evalText defs text}"
+      -- the printed tokens through `evalIf` (theorems) and the text through lexer + macro table (tie): must coincide
+      let a := evalIfText defs (print e)
+      let b := evalText defs text
+      s!"{toHex text} {sv} {cls} {if a == b then a else "SELF-MISMATCH"}"
     | _, _ => "bad-op"
   | _ => "bad-op"
 
